@@ -1,26 +1,207 @@
-//! C02: not implemented yet.
+//! C02: optimisation level never changes observable behaviour.
+//! Pure differential monitor: the same program built in debug and in release, run on the same
+//! inputs, observations compared (return data, logs, revert status).
 use crate::common::*;
+use crate::e2e;
+use crate::engine::*;
+use crate::swrun::*;
 use crate::{Plan, Prop};
+use serde_json::{json, Value};
+use std::panic::AssertUnwindSafe;
 
 pub static META: PropertyMeta = PropertyMeta {
     id: "C02",
     level: "exploration",
-    rule: "not implemented",
-    assumptions: &[],
-    floor_evaluations: 1,
-    floor_nontrivial: 2,
-    required_counters: &[],
+    rule: "pairs (debug build, release build) of one program run on the same inputs: SwGen programs x 12 input vectors, and e2e 'run' tests (seed-rotated slice in quick, all in thorough) with their script data; an evaluation = one program pair; non-trivial = both builds succeeded, the two bytecodes differ and at least one execution returned normally; distinct = hash of source text / test name",
+    assumptions: &[
+        "fuel-vm 0.66 is the trusted execution substrate",
+        "invalid arithmetic whose result is unobservable may be removed by the optimiser (documented undefined behaviour): such a pair is tolerated only when the reference interpreter shows the failing operation's result cannot influence the outcome",
+    ],
+    floor_evaluations: 40,
+    floor_nontrivial: 10,
+    required_counters: &["pairs_compared", "pairs_bytecode_differs", "executions_compared", "e2e_pairs_compared"],
 };
 
 pub static PROP: Prop = Prop {
     meta: &META,
-    plan: |_t| Plan { nshards: 1, budget_s: 1.0, mem_gib: 0 },
-    shard: |_ctx| {
-        let mut r = ShardResult::default();
-        r.harness_fault = Some("not implemented".into());
-        r
-    },
-    replay: crate::no_replay,
+    plan: |t| Plan { nshards: 16, budget_s: t.pick(60.0, 1200.0), mem_gib: 6 },
+    shard,
+    replay,
     extra: crate::no_extra,
     subcommand: crate::no_subcommand,
 };
+
+fn gen_pair(am: &mut Amortised, case: &Case, res: &mut ShardResult) {
+    res.evaluations += 1;
+    let mut built = vec![];
+    for profile in Profile::BOTH {
+        match catch(AssertUnwindSafe(|| am.compile("gencase", &case.src, profile))) {
+            Ok(Ok(c)) => built.push(c),
+            Ok(Err(_)) => {
+                res.count("rejected");
+                let _ = std::fs::remove_dir_all(am.last_dir());
+            }
+            Err(_) => {
+                res.count("compiler_panics");
+                let _ = std::fs::remove_dir_all(am.last_dir());
+            }
+        }
+    }
+    if built.len() != 2 {
+        if built.len() == 1 {
+            // accepted in one profile and rejected in the other: reported by C17 if it is an ICE;
+            // here nothing can be compared
+            res.count("built_in_one_profile_only");
+        }
+        for c in &built {
+            am.remove(c);
+        }
+        return;
+    }
+    res.count("pairs_compared");
+    let differs = built[0].pkg.bytecode.bytes != built[1].pkg.bytecode.bytes;
+    if differs {
+        res.count("pairs_bytecode_differs");
+    }
+    let mut any_returned = false;
+    for (k, data) in case.script_data.iter().enumerate() {
+        let d = run_script(&built[0].pkg.bytecode.bytes, data);
+        let r = run_script(&built[1].pkg.bytecode.bytes, data);
+        res.count("executions_compared");
+        if !d.outcome.reverted() {
+            any_returned = true;
+        }
+        if d.outcome.reverted() && r.outcome.reverted() {
+            res.count("executions_both_reverted");
+        }
+        if d.same_behaviour(&r) {
+            continue;
+        }
+        // differing pair: is it the removal of dead invalid arithmetic?
+        let non_reverting = if d.outcome.reverted() { &r } else { &d };
+        if d.outcome.reverted() != r.outcome.reverted() {
+            match compare_case(case, k, non_reverting) {
+                Cmp::DeadUbTolerated => {
+                    res.count("dead_invalid_arithmetic_removed_tolerated");
+                    continue;
+                }
+                Cmp::Inconclusive(n) => {
+                    res.inconclusive(n);
+                    continue;
+                }
+                _ => {}
+            }
+        }
+        res.violation(
+            format!("debug-release-differ:{:016x}", hash64(case.src.as_bytes())),
+            format!("[input {k} mode {}] debug: {} / release: {}", case.mode.name(), d.short(), r.short()),
+            case.replay_json(json!({"input": k})),
+        );
+        break;
+    }
+    if differs && any_returned {
+        res.note_nontrivial(hash64(case.src.as_bytes()));
+    }
+    if res.samples.is_empty() {
+        res.sample(json!({"kind": "swgen", "mode": case.mode.name(), "source": case.src, "script_data": case.script_data.iter().take(2).map(hex::encode).collect::<Vec<_>>()}));
+    }
+    for c in &built {
+        am.remove(c);
+    }
+}
+
+fn e2e_pair(t: &e2e::RunTest, res: &mut ShardResult) {
+    if t.unsupported_profiles.iter().any(|p| p == "debug" || p == "release") {
+        res.count("e2e_skipped_unsupported_profile");
+        return;
+    }
+    res.evaluations += 1;
+    let d = catch(AssertUnwindSafe(|| plain_build(&t.dir, Profile::Debug)));
+    let r = catch(AssertUnwindSafe(|| plain_build(&t.dir, Profile::Release)));
+    let (d, r) = match (d, r) {
+        (Ok(Ok(d)), Ok(Ok(r))) => (d, r),
+        _ => {
+            res.count("e2e_build_failed");
+            res.inconclusive(format!("e2e test {} did not build in both profiles", t.name));
+            return;
+        }
+    };
+    res.count("e2e_pairs_compared");
+    res.count("pairs_compared");
+    let od = run_script(&d.bytecode.bytes, &t.script_data);
+    let or = run_script(&r.bytecode.bytes, &t.script_data);
+    res.count("executions_compared");
+    if d.bytecode.bytes != r.bytecode.bytes {
+        res.count("pairs_bytecode_differs");
+        if !od.outcome.reverted() {
+            res.note_nontrivial(hash64(t.name.as_bytes()));
+        }
+    }
+    if !od.same_behaviour(&or) {
+        res.violation(format!("debug-release-differ:e2e:{}", t.name), format!("e2e test {}: debug: {} / release: {}", t.name, od.short(), or.short()), json!({"e2e": t.name}));
+    }
+    if res.samples.len() < 2 {
+        res.sample(json!({"kind": "e2e", "test": t.name, "debug": od.short(), "release": or.short()}));
+    }
+}
+
+fn shard(ctx: &ShardCtx) -> ShardResult {
+    let mut res = ShardResult::default();
+    // phase A: e2e corpus slice
+    match e2e::prepare("C02") {
+        Ok(_) if ctx.first_index > 0 => {}
+        Ok(root) => {
+            let all = e2e::list_run_tests(&root);
+            res.max("max_e2e_run_tests_available", all.len() as u64);
+            let mine = e2e::slice_for(&all, ctx.seed, ctx.shard, ctx.nshards);
+            let share = ctx.budget.mul_f64(ctx.tier.pick(0.35, 0.5));
+            for t in mine {
+                if ctx.start.elapsed() > share {
+                    break;
+                }
+                journal_current(ctx, &t.name);
+                ctx.begin_case(0, &t.name, &res);
+                e2e_pair(&t, &mut res);
+                ctx.end_case();
+            }
+        }
+        Err(e) => res.harness_fault = Some(format!("e2e corpus copy failed: {e}")),
+    }
+    // phase B: generated programs
+    let mut am = Amortised::new(&ctx.work());
+    let mut i = ctx.first_index;
+    while ctx.time_left() {
+        let case = case_at(ctx.seed ^ 0x0c02, ctx.shard, i, 12, &mut res);
+        journal_current(ctx, &case.src);
+        ctx.begin_case(i, &case.src, &res);
+        gen_pair(&mut am, &case, &mut res);
+        ctx.end_case();
+        i += 1;
+    }
+    res
+}
+
+fn replay(case: &Value) -> ShardResult {
+    let mut res = ShardResult::default();
+    if let Some(name) = case.get("e2e").and_then(|v| v.as_str()) {
+        match e2e::prepare("C02") {
+            Ok(root) => {
+                let all = e2e::list_run_tests(&root);
+                match all.iter().find(|t| t.name == name) {
+                    Some(t) => e2e_pair(t, &mut res),
+                    None => res.harness_fault = Some("recorded e2e test no longer exists".into()),
+                }
+            }
+            Err(e) => res.harness_fault = Some(e),
+        }
+        return res;
+    }
+    let work = work_dir("C02").join("replay");
+    clean_dir(&work);
+    let mut am = Amortised::new(&work);
+    match case_from_replay(case) {
+        Some(c) => gen_pair(&mut am, &c, &mut res),
+        None => res.harness_fault = Some("the generator no longer reproduces the recorded program".into()),
+    }
+    res
+}
